@@ -396,6 +396,23 @@ def same_compile(F, rep):
     if m is None:
         return
     fl = Flow(fn, fn_body(fn))
+    # stdout is chosen by the output path being exactly `-`: any other path names a file
+    for arm in m["arms"]:
+        uses_stdout = any((callee(c) or "").endswith(("io::stdout", "stdio::stdout")) for c in nodes(arm["body"], "Call"))
+        if not uses_stdout:
+            continue
+        g = arm.get("guard")
+        exact = False
+        if g is not None:
+            for b in nodes(g, "Binary"):
+                if b.get("op") == "Eq":
+                    sides = [pp(peel_clone(b["l"])), pp(peel_clone(b["r"]))]
+                    lits = [x.get("v") for side in (b["l"], b["r"]) for x in nodes(side, "Lit")]
+                    exact = "-" in lits
+        rep.ob("SAME-COMPILE", "stdout-only-for-dash", exact,
+               "the stdout arm is taken when the output path equals `-`" if exact else
+               "the stdout arm is guarded by `%s`, not by equality with `-`: some paths that name a file (`dir/-`) print to stdout, "
+               "exit 0 and leave the file unwritten" % (pp(g)[:60] if g is not None else "nothing"), line_of(arm))
     sigs = []
     for arm in m["arms"]:
         pats = [pat_variant(a) for a in pat_alternatives(arm["pat"])]
@@ -419,6 +436,14 @@ def require_flag(F, rep):
     kinds = [e[0] for e in pro]
     rep.ob("REQUIRE", "prologue-shape", kinds == ["write", "if-some"],
            "before the instruction loop the emitter writes the preamble and then, only if a module is given, the require line (%s)" % kinds)
+    # .. whenever one is given: the test is on the option itself, not on the option filtered by something about the program
+    if len(pro) == 2 and pro[1][0] == "if-some":
+        scr = pro[1][1].replace("&", "").strip()
+        plain = scr in ("require", "require.as_ref()", "require.as_deref()", "require.clone()")
+        rep.ob("REQUIRE", "whenever-given", plain,
+               "the require line depends on nothing but the option (`if let Some(..) = %s`)" % scr if plain else
+               "the require line is written under `if let Some(..) = %s`: with --require M it can be missing - for a program "
+               "without external definitions compiled with --no-std, say" % scr)
     txt = None
     if len(pro) == 2 and pro[1][0] == "if-some":
         ws = [e for e in pro[1][2] if e[0] == "write"]
